@@ -714,7 +714,7 @@ pub fn c13(ctx: &mut Ctx) {
         ctx.case(op, call("wrap", &col, &o));
         // the generated text lies in the class of the Lean theorems (blocks, valid, attached)
         ctx.case(
-            Op { req: format!("c13blocks|{}", enc_paras(&paras)), real: format!("valid=1;attached=1;nolf=1;col={};vis={}", crate::proto::enc_text(&col), crate::proto::enc_text(&vis)) },
+            Op { req: format!("c13blocks|{}|{}", (o.splitter == "h") as u8, enc_paras(&paras)), real: format!("valid=1;attached=1;nolf=1;hyphenok=1;col={};vis={}", crate::proto::enc_text(&col), crate::proto::enc_text(&vis)) },
             format!("blocks of {}", show(&col)),
         );
         let (rv, _) = real_wrap(&vis, &o);
